@@ -53,7 +53,7 @@ PATHS = [
 ]
 
 
-def mk_callables(log):
+def mk_callables(log, jinja2):
     def rec(name):
         def f(*a, **k):
             log.append(name)
@@ -87,8 +87,35 @@ def mk_callables(log):
             log.append("callable-object")
             return "ran"
 
-    return {"unsafe": u, "alters": a, "alters-not-unsafe": b, "method-alters": Actions().delete,
-            "method-unsafe": Actions().drop, "callable-object": CallableObj()}
+    out = {"unsafe": u, "alters": a, "alters-not-unsafe": b, "method-alters": Actions().delete,
+           "method-unsafe": Actions().drop, "callable-object": CallableObj()}
+    # callable objects whose __call__ is a pass_* function: the engine unwraps them to find the decoration
+    # (Context.call); the verdict must still be taken on the object the template named
+    for deco_name in ("pass_context", "pass_environment", "pass_eval_context"):
+        deco = getattr(jinja2, deco_name)
+
+        def mk(deco=deco, deco_name=deco_name):
+            class PassClassLevel:
+                alters_data = True
+
+                @deco
+                def __call__(self, first, *a, **k):
+                    log.append(f"{deco_name}-object-class-marker")
+                    return "ran"
+
+            class PassInstanceLevel:
+                @deco
+                def __call__(self, first, *a, **k):
+                    log.append(f"{deco_name}-object-instance-marker")
+                    return "ran"
+
+            inst = PassInstanceLevel()
+            inst.unsafe_callable = True
+            return PassClassLevel(), inst
+        c, i = mk()
+        out[f"{deco_name}-object-class-marker"] = c
+        out[f"{deco_name}-object-instance-marker"] = i
+    return out
 
 
 def run(ctx, res):
@@ -118,7 +145,7 @@ def run(ctx, res):
     for envname, mk in envs:
         env = mk()
         log = []
-        cs = mk_callables(log)
+        cs = mk_callables(log, jinja2)
         if envname.startswith("custom"):
             def denied(*a, **k):
                 log.append("denied-by-override")
@@ -178,8 +205,9 @@ def run(ctx, res):
     res.coverage.update({
         "evaluations": evaluations + n_cross,
         "distinct_nontrivial": len(distinct),
-        "rule": ("6-7 recording callables (unsafe_callable, alters_data, alters_data with unsafe_callable=False, bound "
-                 "methods, callable object, rejected-by-override) x 31 paths (direct, aliases, attribute/dict/list "
+        "rule": ("12-13 recording callables (unsafe_callable, alters_data, alters_data with unsafe_callable=False, bound "
+                 "methods, callable object, callable objects with a pass_context/pass_environment/pass_eval_context __call__ "
+                 "marked at class or instance level, rejected-by-override) x 31 paths (direct, aliases, attribute/dict/list "
                  "holders, macro argument/default, call block target/body/caller argument, loop variables, filter and "
                  "test arguments, conditions, set/filter blocks, star-args, nested calls, import, include, block, "
                  "recursive loop; i18n functions) x sandboxed/async/immutable/overridden-check environments; oracle = "
